@@ -68,6 +68,7 @@ type lockAnalysis struct {
 	funcsAnalysed map[*ssa.Function]bool
 	callSites     int
 	rootCache     map[*ssa.Function]bool
+	curFn         *ssa.Function // function whose instruction is being evaluated
 }
 
 type lockOpOb struct {
@@ -202,6 +203,11 @@ func (la *lockAnalysis) fresh(v ssa.Value, seen map[ssa.Value]bool) bool {
 	v = la.w.resolveAddr(v)
 	switch x := v.(type) {
 	case *ssa.Alloc, *ssa.MakeSlice, *ssa.MakeMap:
+		// memory allocated by an enclosing function is not fresh inside a closure that
+		// may run later (goroutine, callback)
+		if in, ok := v.(ssa.Instruction); ok && la.curFn != nil && in.Parent() != la.curFn {
+			return false
+		}
 		return true
 	case *ssa.Const:
 		return x.Value == nil
@@ -263,7 +269,10 @@ func (la *lockAnalysis) freshParam(p *ssa.Parameter, seen map[ssa.Value]bool) bo
 	}
 	n := 0
 	okAll := true
+	saved := la.curFn
+	defer func() { la.curFn = saved }()
 	for _, caller := range la.w.ModFuncs {
+		la.curFn = caller
 		allInstrs(caller, func(in ssa.Instruction) {
 			c := callCommonOf(in)
 			if c == nil {
@@ -290,7 +299,10 @@ func (la *lockAnalysis) freshParam(p *ssa.Parameter, seen map[ssa.Value]bool) bo
 func (la *lockAnalysis) freshField(owner *types.Named, field string, seen map[ssa.Value]bool) bool {
 	n := 0
 	okAll := true
+	saved := la.curFn
+	defer func() { la.curFn = saved }()
 	for _, fn := range la.w.ModFuncs {
+		la.curFn = fn
 		allInstrs(fn, func(in ssa.Instruction) {
 			st, ok := in.(*ssa.Store)
 			if !ok {
@@ -326,6 +338,7 @@ func (la *lockAnalysis) isRootCached(fn *ssa.Function) bool {
 
 func (la *lockAnalysis) computeMutable() {
 	for _, fn := range la.w.ModFuncs {
+		la.curFn = fn
 		allInstrs(fn, func(in ssa.Instruction) {
 			st, ok := in.(*ssa.Store)
 			if !ok {
@@ -612,6 +625,7 @@ func (la *lockAnalysis) analyze(k ctxKey, emit bool) lockState {
 // and propagates contexts to callees.
 func (la *lockAnalysis) step(k ctxKey, ins ssa.Instruction, st lockState, defers []*ssa.Defer, emit bool, exit *int) lockState {
 	w := la.w
+	la.curFn = k.fn
 	switch x := ins.(type) {
 	case *ssa.Alloc:
 		if n := namedOf(x.Type()); n != nil && n.Obj() == la.runnerT.Obj() && x.Heap {
